@@ -95,6 +95,47 @@ def Mac(self, x="d", y="d"):
     return made[level["out"]]
 
 
+# ---- nodes whose input labels collide with parameter names of the run / submit machinery -------------------
+# (inputs travel as keyword arguments through Runnable._run -> executor.submit -> on_run -> the function)
+COLLIDING = ["fn", "args", "kwargs", "self", "executor", "node", "run_output", "finish_run_kwargs",
+             "run_exception_kwargs", "run_finally_kwargs", "raise_run_exceptions", "emit_ran_signal",
+             "check_readiness", "cache", "future", "fut", "timeout", "label", "parent", "save_result",
+             "dumped_args", "dumped_kwargs", "call_item", "x"]
+LABELLED: dict = {}       # label -> function node class | exception name raised at class creation
+LABELLED_MACRO: dict = {}
+
+
+def _mk_labelled(lab):
+    ns: dict = {}
+    src = f"def LF_{lab}({lab}='d', other='d'):\n    r = ('f50', {lab}, other, 'd')\n    return r\n"
+    try:
+        exec(src, ns)  # noqa: S102
+        fn = ns[f"LF_{lab}"]
+        fn.__module__ = __name__
+        fn.__qualname__ = f"LF_{lab}"
+        cls = as_function_node("o", validate_output_labels=False)(fn)
+        globals()[f"LF_{lab}"] = cls
+        LABELLED[lab] = cls
+    except Exception as e:  # noqa: BLE001
+        LABELLED[lab] = type(e).__name__
+    src = (f"def LM_{lab}(self, {lab}='d'):\n    self.k = nodes.F1(a={lab})\n    return self.k\n")
+    try:
+        ns = {"nodes": nodes}
+        exec(src, ns)  # noqa: S102
+        fn = ns[f"LM_{lab}"]
+        fn.__module__ = __name__
+        fn.__qualname__ = f"LM_{lab}"
+        cls = as_macro_node("o", validate_output_labels=False)(fn)
+        globals()[f"LM_{lab}"] = cls
+        LABELLED_MACRO[lab] = cls
+    except Exception as e:  # noqa: BLE001
+        LABELLED_MACRO[lab] = type(e).__name__
+
+
+for _lab in COLLIDING:
+    _mk_labelled(_lab)
+
+
 POOLS: list = []  # executor objects by identity (index), for the sharing patterns of instruction executors
 
 
